@@ -276,7 +276,15 @@ Section LegacyOutput.
     let* '(len, r0) := ce_array bs in
     let* '(a, r1) := addr_deserialize legacy r0 in
     let* '(v, r2) := dec_value r1 in
-    let* '(h, r3) := third_element legacy r2 in
+    (* repaired reader: a definite array of two items is not probed for a third one, and the declared length must be
+       the number of items read (check_len); the old reader probed always and never looked at the length *)
+    let probe := if legacy then true else match len with Arg n => 2 <? n | Indef => true end in
+    let* '(h, r3) := (if probe then third_element legacy r2 else Ok (None, r2)) in
+    let* _ := (if legacy then Ok tt
+               else match len with
+                    | Arg n => if n =? 2 + (if h then 1 else 0) then Ok tt else Err
+                    | Indef => Ok tt
+                    end) in
     match len with
     | Arg _ => Ok (a, v, h, r3)
     | Indef => match r3 with c :: t => if c =? 255 then Ok (a, v, h, t) else Err | [] => Err end
